@@ -40,8 +40,9 @@ std::vector<Event> drainEvents();
 long mutatingCalls();
 
 // fault injection: at the k-th mutating call (1-based) counted from arm():
-enum Mode { Off = 0, CrashBefore = 1, ShortWriteCrash = 2, FailErrno = 3 };
+enum Mode { Off = 0, CrashBefore = 1, ShortWriteCrash = 2, FailErrno = 3, FailSticky = 4 };
 void arm(long k, Mode m, int err);
+void thenCrashAt(long j); // after the armed failure: crash before the j-th later mutating call
 bool faultFired();
 const char *faultCallName();
 
